@@ -29,19 +29,19 @@ CHECKS = {
          "No reference model is involved. evaluate() and `gram run` are cross-checked against the driven loop on short runs.",
          "DESIGN.md section 4, C01"),
  "C02": ("runtime monitor: differential against an environment-based call-by-value reference interpreter on the source AST, plus an exhaustive operator x operand table and planted effects",
-         "Held on every execution observed: gram's value equals the reference interpreter's on generated programs (ground values exactly, functions by reference conversion between program and value), on all 9 operators x 17 x 17 operands up to +-(2^200+12345), and division by zero appears exactly where call-by-value evaluation reaches it (8 placements).",
+         "Held on every execution observed: gram's value equals the reference interpreter's on generated programs (ground values exactly, functions by reference conversion between program and value), on all 9 operators x 27 x 27 operands up to +-(2^200+12345), on programs after 1-3 scope-aware edits that the checker still accepts, and division by zero appears exactly where call-by-value evaluation reaches it (8 placements).",
          "R-eval (harness/src/reval.rs) is the semantics of DESIGN.md A.7; gram's step budget is 20 x reference reductions + 200 (logical, not wall clock).",
          "DESIGN.md section 4, C02"),
  "C03": ("runtime monitor: an independent NbE type checker (R-core) judges every elaborated (term, type) pair; ill-typed perturbations must be rejected",
-         "Held on every execution observed: each pair returned by type_check on explicit, inferred, perturbed (explicit and inferred, incl. planted wrong-type traps behind decoy definitions) and corpus programs, on all programs of <=5/6 nodes and on a 6360-cell matrix of higher-order polymorphic calls with written or omitted binder annotations was re-checked by R-core (scoping, typing, reported type); every explicit program R-core judges ill-typed was rejected with a diagnostic. Violations on programs with holes whose check passed an unresolved hole through open/signed_shift (hook counters) are the recorded finding.",
+         "Held on every execution observed: each pair returned by type_check on explicit, inferred, perturbed and edited (explicit and inferred, incl. planted wrong-type traps behind decoy definitions and scope-aware edits that put another variable in scope where one stood) and corpus programs, on all programs of <=5/6 nodes and on a 6360-cell matrix of higher-order polymorphic calls with written or omitted binder annotations was re-checked by R-core (scoping, typing, reported type); every explicit program R-core judges ill-typed was rejected with a diagnostic. Violations on programs with holes whose check passed an unresolved hole through open/signed_shift (hook counters) are the recorded finding.",
          "R-core implements DESIGN.md A.5/A.6 with named closures (no de Bruijn arithmetic); reference fuel exhaustion is inconclusive.",
          "DESIGN.md section 4, C03"),
  "C04": ("runtime monitor: head-shape table and full reference re-check of the evaluated value against the reported type",
-         "Held on every execution observed: for accepted programs (generated, corpus, and whatever the checker still accepts among single-point perturbations and planted traps) that produced a value, the value's head matches the weak-head form of the reported type and R-core infers for the value a type convertible to the reported one.",
+         "Held on every execution observed: for accepted programs (generated, corpus, and whatever the checker still accepts among single-point perturbations, scope-aware edits and planted traps) that produced a value, the value's head matches the weak-head form of the reported type and R-core infers for the value a type convertible to the reported one.",
          "R-core is the typing reference; programs that do not produce a value within the step budget are not judged.",
          "DESIGN.md section 4, C04"),
  "C05": ("runtime monitor: reference verdict and intended type on type-directed explicit programs versus gram's; exact structural diff of parse output and elaborated term",
-         "Held on every execution observed: every generated fully annotated program that R-core accepts was accepted by gram with a type convertible both to R-core's and to the generator's intended type; for every accepted program the elaborated term equals the parsed term except where the source had a hole or omitted annotation. A worker death on an explicit program counts as a violation.",
+         "Held on every execution observed: every generated fully annotated program that R-core accepts was accepted by gram with a type convertible both to R-core's and to the generator's intended type; every explicit program that R-core still accepts after 1-3 scope-aware edits (other variables in scope, neighbouring literals, operators of the same class, definitions and applied binders put around a node, annotations and domains named by an alias of their own group) was accepted with a type convertible to R-core's; for every accepted program the elaborated term equals the parsed term except where the source had a hole or omitted annotation. A worker death on an explicit program counts as a violation.",
          "Two independent expectations (R-core, generator). Syntactic rejections of a printed program are not this property's subject and are counted as inconclusive (0 observed).",
          "DESIGN.md section 4, C05"),
  "C06": ("runtime monitor: evaluator trace from the harness's step loop versus normalize_weak_head/unify; symmetry; agreement with reference normal forms",
